@@ -70,6 +70,8 @@ def run(ck):
                     kw['fixed_vector'][0] = 1.0
         else:
             X = xr.make_X('random', n, d, rng)
+            if i % 5 == 3:
+                X = (X * np.float32(1e-5)).astype(np.float32)        # features of small magnitude: thresholds and margins scale with the data
             if method == 'fixed_vector':
                 kw['fixed_vector'] = torch.tensor(rng.standard_normal(d).astype(np.float32))
         if method == 'random_global_agop':
@@ -77,8 +79,10 @@ def run(ck):
         y = xr.make_y('reg', X, rng)
         nv = int(rng.integers(5, 60))
         Xv = xr.make_X('distinct_grid' if exact else 'random', nv, d, rng)
+        if not exact and i % 5 == 3:
+            Xv = (Xv * np.float32(1e-5)).astype(np.float32)
         yv = xr.make_y('reg', Xv, rng)
-        desc = dict(i=i, n=n, L=L, d=d, f=f, method=method, exact=exact, tree_iters=tree_iters, seed=ck.seed)
+        desc = dict(i=i, n=n, L=L, d=d, f=f, method=method, exact=exact, tree_iters=tree_iters, small_magnitude=bool((not exact) and i % 5 == 3), seed=ck.seed)
         xr.seed_all(8000 + i + ck.seed)
         model = xr.xRFM(rfm_params=xr.default_rfm_params(iters=(1 if tree_iters else 0), reg=1e-2), max_leaf_size=L, split_method=method,
                         overlap_fraction=f, verbose=False, use_temperature_tuning=False, refill_size=10, n_tree_iters=tree_iters, **kw)
